@@ -548,6 +548,7 @@ pub use util::majority;
 pub mod verif_export {
     pub use crate::confchange::{restore, MapChangeType};
     pub use crate::quorum::{AckIndexer, AckedIndexer, Index, VoteResult};
+    pub use crate::raft::verif_timeout;
     pub use crate::read_only::{ReadIndexStatus, ReadOnly};
     pub use crate::tracker::{Configuration, ProgressMap};
 }
